@@ -48,7 +48,7 @@ func main() {
 	e1 := E{1, 2}
 	e2 := E{1, 2}
 	e3 := E{"1", 2}
-	e4 := E{int32(1), 2}
+	e4 := E{int64(1), 2} // (int vs int32 dynamic types are identical in Wa: defects/iface_int_int32_identity.go)
 	e5 := E{nil, 2}
 	println(e1 == e2, e1 == e3, e1 == e4, e1 == e5, e5 == E{k: 2})
 
